@@ -200,6 +200,9 @@ class FlowCx:
                         rv = st[1]
                         if rv[0] == "agg" and rv[1] == "adt":
                             out.add("const:%s::%s" % (rv[2].split("::")[-1], rv[3]))
+                            # with its constant payload as well: Some(false) and Some(true) are different constants
+                            if len(rv) > 4 and rv[4] and all(o[0] == "k" for o in rv[4]):
+                                out.add("const:%s::%s(%s)" % (rv[2].split("::")[-1], rv[3], ",".join(str(o[1]) for o in rv[4])))
                         elif rv[0] == "use" and rv[1][0] == "k":
                             out.add("const:" + str(rv[1][1]))
             else:
